@@ -5,6 +5,7 @@ CONSTANTS
   Classes <- WithAlias
   LRegs <- AllRegs
   RRegs <- AllRegs
+  ScalarTs <- AllSTs
   OneStep = TRUE
   EmitOn = TRUE
 ACTION_CONSTRAINT Emit
